@@ -519,7 +519,7 @@ pub fn generate(run_seed: u64, thorough: bool, cold_race: bool) -> ConcDesc {
         }
     }
     let mut sr = Rng::new(rng::derive(run_seed, &[rng::label("strategy")]));
-    let strategy = crate::scen_list::pick_strategy(&mut sr, if cold_race { 6000 } else { 1500 });
+    let strategy = crate::scen_list::pick_strategy_compiling(&mut sr, if cold_race { 6000 } else { 1500 });
     ConcDesc {
         property: "C12".into(),
         scenario: if cold_race { "cold-race".into() } else { "calls".into() },
